@@ -273,12 +273,13 @@ def crash_signatures(r, where=None):
 # Second memory monitor (DESIGN 3.1): the uninstrumented build under memcheck sees what ASan cannot - accesses made
 # *inside* uninstrumented libraries (libzstd, libcrypto) on behalf of the library under test with a wrong pointer or
 # size.  Invalid reads/writes/frees, overlapping memcpy and unaddressable syscall parameters are counted;
-# uninitialised-value messages are recorded as observations only.
+# uninitialised-value messages are recorded as observations only.  "Argument 'size' of function realloc has a fishy value" is
+# NOT counted: a file-supplied size handed to the allocator, which refuses it, is an error path, not an access (first thorough
+# run reported it on a header declaring 2^63 bytes; the library checks the NULL and fails the open).
 MEMCHECK_CPU = 300
 _VG_COUNTED = re.compile(r"==\d+== (Invalid read of size \d+|Invalid write of size \d+|Invalid free\(\)|Mismatched free\(\)|"
                          r"Source and destination overlap in \w+|Syscall param \S+ points to unaddressable byte\(s\)|"
-                         r"Jump to the invalid address|Process terminating with default action of signal \d+ \(SIG\w+\)|"
-                         r"Argument '\w+' of function \w+ has a fishy \(possibly negative\) value)")
+                         r"Jump to the invalid address|Process terminating with default action of signal \d+ \(SIG\w+\))")
 _VG_UNINIT = re.compile(r"==\d+== (Conditional jump or move depends on uninitialised value|Use of uninitialised value|"
                         r"Syscall param \S+ (?:points to|contains) uninitialised byte)")
 _VG_FRAME = re.compile(r"==\d+==\s+(?:at|by) 0x[0-9A-F]+: (\S+) \((?:in )?([^)]*)\)")
